@@ -362,6 +362,28 @@ example : (readAll false (2, 1) (filesAfter 128 none exOverwrite)).ents = [en 2 
     exOverwrite exOverwrite_fits (show SaveOk exOverwrite by decide) false (2, 1) (show ¬ Mismatch (2, 1) exOverwrite by decide)
   ⟨(h.2.2.1 (show NoStale 2 exOverwrite by decide)).trans (by decide), h.2.2.2 (show (2, 1) ∈ savedSnaps exOverwrite by decide)⟩
 
+/-- the hypotheses of `readAll_hardstate` / `readAll_snapshot_match` / `verify_agrees_written` hold for it too: the last
+    non-empty hard state, no error at the saved snapshot (2, 1), `ErrSnapshotMismatch` at (2, 7), `ErrSnapshotNotFound` at (3, 1)
+    in read mode and — the quirk — none in write mode -/
+example : (readAll false (2, 1) (filesAfter 128 none exOverwrite)).state = ⟨2, 2, 2⟩ :=
+  (readAll_hardstate 128 (show 128 % 8 = 0 by decide) none (show ((none : Option Bytes).getD []).length < 2 ^ 55 by decide)
+    exOverwrite exOverwrite_fits (show SaveOk exOverwrite by decide) false (2, 1) (show ¬ Mismatch (2, 1) exOverwrite by decide)).1.trans
+    (by decide)
+
+example : (readAll false (2, 1) (filesAfter 128 none exOverwrite)).err = none ∧
+    (readAll false (2, 7) (filesAfter 128 none exOverwrite)).err = some .snapMismatch ∧
+    (readAll false (3, 1) (filesAfter 128 none exOverwrite)).err = some .snapNotFound ∧
+    (readAll true (3, 1) (filesAfter 128 none exOverwrite)).err = none ∧
+    verify (2, 1) (filesAfter 128 none exOverwrite) = .ok ⟨2, 2, 2⟩ := by
+  have hm := readAll_snapshot_match 128 (show 128 % 8 = 0 by decide) none (show ((none : Option Bytes).getD []).length < 2 ^ 55 by decide)
+    exOverwrite exOverwrite_fits (show SaveOk exOverwrite by decide)
+  have hv := verify_agrees_written 128 (show 128 % 8 = 0 by decide) none (show ((none : Option Bytes).getD []).length < 2 ^ 55 by decide)
+    exOverwrite exOverwrite_fits (show SaveOk exOverwrite by decide) (2, 1)
+  refine ⟨(hm false (2, 1)).trans (by decide), (hm false (2, 7)).trans (by decide), (hm false (3, 1)).trans (by decide),
+    (hm true (3, 1)).trans (by decide), ?_⟩
+  rw [hv]
+  decide +kernel
+
 /-- … and the model evaluated directly on those files gives the same (kernel evaluation of writer and reader) -/
 example : readAll true (0, 0) (filesAfter 128 none exOverwrite) =
     ⟨none, ⟨2, 2, 2⟩, [en 1 1, en 1 2, en 2 3, en 2 4, en 2 5], none,
